@@ -77,7 +77,9 @@ def events_from(fake, intents):
         elif query:
             intended = False
         h = rec['headers']
-        evs.append({'method': rec['method'], 'sigOk': bool(v.get('sigOk')), 'wirePath': list(path), 'intendedPath': b(it.get('path', '')),
+        evs.append({'method': rec['method'], 'sigOk': bool(v.get('sigOk')), 'wirePath': list(path),
+                    'intendedPath': b(it['path']) if it.get('path') is not None else list(sigv4.pct_decode(path)),      # command-level uploads: names chosen by the command
+
                     'wireQuery': list(query), 'pairs': pairs, 'intended': bool(intended), 'signed': v.get('signed', []),
                     'declaredHash': v.get('declaredHash', ''), 'bodyHash': v.get('bodyHash', ''),
                     'declaredLen': int(h['content-length']) if 'content-length' in h else -1, 'bodyLen': len(rec['body']),
@@ -86,7 +88,7 @@ def events_from(fake, intents):
     return evs
 
 
-def session(run, rng, seed, nm_list, quick, region='eu-test-1', host='s3.example.test:9000', secret=None, clock=None, page=2, scheme='http', big=False):
+def session(run, rng, seed, nm_list, quick, region='eu-test-1', host='s3.example.test:9000', secret=None, clock=None, page=2, scheme='http', big=False, objects=False):
     from replicat.backends import s3c
     fake = fakes3.FakeS3(page_size=page, secret=secret or 'wJalrXUtnFEMI/K7MDENG+bPxRfiCYEXAMPLEKEY')
     be = fakes3.client(fake, region=region, host=host, scheme=scheme)
@@ -139,6 +141,20 @@ def session(run, rng, seed, nm_list, quick, region='eu-test-1', host='s3.example
             async def lst(prefix=prefix):
                 return [x async for x in be.list_files(prefix)]
             await op('list', '/%s' % fake.bucket, lst(), kind='list', prefix=prefix)
+        if objects:
+            # the upload-objects COMMAND over the adapter: a directory with a regular file and a symbolic link to a larger file; whatever
+            # the command declares (length, hash) must be what it sends
+            import tempfile
+            from pathlib import Path
+            from replicat.repository import Repository
+            with tempfile.TemporaryDirectory() as td:
+                tree = Path(td) / 'tree'
+                tree.mkdir()
+                (tree / 'plain.bin').write_bytes(rng.randbytes(700))
+                (Path(td) / 'target.bin').write_bytes(rng.randbytes(30_000))
+                (tree / 'linked.bin').symlink_to(Path(td) / 'target.bin')
+                repo = Repository(be, concurrent=2, quiet=True, cache_directory=None)
+                await op('upload_objects', None, repo.upload_objects([tree]))
         if big:
             # payloads at realistic sizes: a default-size chunk, exactly one 16 MiB read piece, and more than that (streamed with the default
             # stream chunk size); the declared hash must be the hash of what was sent whatever the size
@@ -172,7 +188,7 @@ def main(run):
     variants = [dict(), dict(region='us-east-1', host='minio.local'), dict(secret='s/+=' * 10, host='127.0.0.1:9877'),
                 dict(clock=datetime.datetime(2031, 12, 31, 23, 59, 59)), dict(clock=datetime.datetime(2032, 1, 1, 0, 0, 0), page=3),
                 # host spellings that the HTTP client normalises on the wire: upper case, an explicit default port
-                dict(host='S3.Example.Test:9000'), dict(host='minio.local:80'), dict(scheme='https', host='s3.eu-test-1.example.test', big=True)]
+                dict(host='S3.Example.Test:9000'), dict(host='minio.local:80'), dict(scheme='https', host='s3.eu-test-1.example.test', big=True), dict(objects=True)]
     for i in range(max(len(groups), len(variants))):          # every name group and every variant at least once
         traces.append(session(run, rng, i, groups[i % len(groups)], quick, **variants[i % len(variants)]))
 
